@@ -32,6 +32,12 @@ add("C03", "vp_sample",
     "Trusted: the conversion references of C01/C02, native + and * of the host in the companion type. The 14 x 32 product of array instantiations is covered as 4 x 32 + 14 x 4 (array frames are one generic impl).",
     "DESIGN.md §4 C03")
 
+add("C06", "vp_buf (+ libFuzzer target rb in the thorough tier)",
+    "model-based testing: bounded-exhaustive step relation from every state + proptest operation histories against VecDeque / rotating-array models",
+    "The step relation (every operation with every argument) is executed from every valid (start, len) / first of capacities 1..=12 (thorough 1..=24), all two-operation sequences from every state of capacities 1..=4 (6), plus proptest histories of up to 300 (2000) operations over capacities up to 64, four storage kinds and two element types; after every operation len/is_empty/is_full/max_len, get(i), Index, iter, slices (and iter_loop for Fixed) are compared with the model, out-of-range Index must panic, constructors must reject exactly the documented invalid parts. Backing storage sits between canary guard zones and dead slots carry sentinels; a debug-assertion build turns unchecked out-of-bounds accesses into fatal failures that are reported with the case that caused them.",
+    "Trusted: the VecDeque model, std's unsafe-precondition checks (debug-assertion build), ASan in the fuzz tier. Capacities above the enumerated bound are covered by random histories only.",
+    "DESIGN.md §4 C06")
+
 PENDING_REASON = "check not yet built in this round (design in DESIGN.md §4); nothing is claimed for it until its check is registered"
 
 def main():
